@@ -112,9 +112,9 @@ Cond/EmitBase.vos Cond/EmitBase.vok Cond/EmitBase.required_vos: Cond/EmitBase.v 
 Cond/EmitProofs.vo Cond/EmitProofs.glob Cond/EmitProofs.v.beautified Cond/EmitProofs.required_vo: Cond/EmitProofs.v Cond/RunsProofs.vo Cond/Syntax.vo Cond/Sem.vo Cond/SemProofs.vo Cond/Quirks.vo Cond/QuirksProofs.vo Cond/Machine.vo Cond/MachineProofs.vo Cond/Emit.vo Cond/EmitBase.vo
 Cond/EmitProofs.vio: Cond/EmitProofs.v Cond/RunsProofs.vio Cond/Syntax.vio Cond/Sem.vio Cond/SemProofs.vio Cond/Quirks.vio Cond/QuirksProofs.vio Cond/Machine.vio Cond/MachineProofs.vio Cond/Emit.vio Cond/EmitBase.vio
 Cond/EmitProofs.vos Cond/EmitProofs.vok Cond/EmitProofs.required_vos: Cond/EmitProofs.v Cond/RunsProofs.vos Cond/Syntax.vos Cond/Sem.vos Cond/SemProofs.vos Cond/Quirks.vos Cond/QuirksProofs.vos Cond/Machine.vos Cond/MachineProofs.vos Cond/Emit.vos Cond/EmitBase.vos
-Cond/HostCheck.vo Cond/HostCheck.glob Cond/HostCheck.v.beautified Cond/HostCheck.required_vo: Cond/HostCheck.v Cond/HostTypes.vo Cond/HostModel.vo Cond/Traps.vo Gen/HostFns.vo
-Cond/HostCheck.vio: Cond/HostCheck.v Cond/HostTypes.vio Cond/HostModel.vio Cond/Traps.vio Gen/HostFns.vio
-Cond/HostCheck.vos Cond/HostCheck.vok Cond/HostCheck.required_vos: Cond/HostCheck.v Cond/HostTypes.vos Cond/HostModel.vos Cond/Traps.vos Gen/HostFns.vos
+Cond/HostCheck.vo Cond/HostCheck.glob Cond/HostCheck.v.beautified Cond/HostCheck.required_vo: Cond/HostCheck.v Cond/HostTypes.vo Cond/HostModel.vo Cond/Traps.vo Cond/StrModel.vo Gen/HostFns.vo
+Cond/HostCheck.vio: Cond/HostCheck.v Cond/HostTypes.vio Cond/HostModel.vio Cond/Traps.vio Cond/StrModel.vio Gen/HostFns.vio
+Cond/HostCheck.vos Cond/HostCheck.vok Cond/HostCheck.required_vos: Cond/HostCheck.v Cond/HostTypes.vos Cond/HostModel.vos Cond/Traps.vos Cond/StrModel.vos Gen/HostFns.vos
 Cond/HostModel.vo Cond/HostModel.glob Cond/HostModel.v.beautified Cond/HostModel.required_vo: Cond/HostModel.v Cond/HostTypes.vo
 Cond/HostModel.vio: Cond/HostModel.v Cond/HostTypes.vio
 Cond/HostModel.vos Cond/HostModel.vok Cond/HostModel.required_vos: Cond/HostModel.v Cond/HostTypes.vos
@@ -175,6 +175,12 @@ Cond/Sem.vos Cond/Sem.vok Cond/Sem.required_vos: Cond/Sem.v Cond/Syntax.vos
 Cond/SemProofs.vo Cond/SemProofs.glob Cond/SemProofs.v.beautified Cond/SemProofs.required_vo: Cond/SemProofs.v Cond/Syntax.vo Cond/Sem.vo Cond/Rename.vo
 Cond/SemProofs.vio: Cond/SemProofs.v Cond/Syntax.vio Cond/Sem.vio Cond/Rename.vio
 Cond/SemProofs.vos Cond/SemProofs.vok Cond/SemProofs.required_vos: Cond/SemProofs.v Cond/Syntax.vos Cond/Sem.vos Cond/Rename.vos
+Cond/StrModel.vo Cond/StrModel.glob Cond/StrModel.v.beautified Cond/StrModel.required_vo: Cond/StrModel.v Cond/HostTypes.vo Cond/HostModel.vo
+Cond/StrModel.vio: Cond/StrModel.v Cond/HostTypes.vio Cond/HostModel.vio
+Cond/StrModel.vos Cond/StrModel.vok Cond/StrModel.required_vos: Cond/StrModel.v Cond/HostTypes.vos Cond/HostModel.vos
+Cond/StrModelProofs.vo Cond/StrModelProofs.glob Cond/StrModelProofs.v.beautified Cond/StrModelProofs.required_vo: Cond/StrModelProofs.v Cond/HostTypes.vo Cond/HostModel.vo Cond/StrModel.vo
+Cond/StrModelProofs.vio: Cond/StrModelProofs.v Cond/HostTypes.vio Cond/HostModel.vio Cond/StrModel.vio
+Cond/StrModelProofs.vos Cond/StrModelProofs.vok Cond/StrModelProofs.required_vos: Cond/StrModelProofs.v Cond/HostTypes.vos Cond/HostModel.vos Cond/StrModel.vos
 Cond/Syntax.vo Cond/Syntax.glob Cond/Syntax.v.beautified Cond/Syntax.required_vo: Cond/Syntax.v 
 Cond/Syntax.vio: Cond/Syntax.v 
 Cond/Syntax.vos Cond/Syntax.vok Cond/Syntax.required_vos: Cond/Syntax.v 
@@ -412,9 +418,9 @@ Pat/BlocksCheck.vos Pat/BlocksCheck.vok Pat/BlocksCheck.required_vos: Pat/Blocks
 Pat/BlocksProofs.vo Pat/BlocksProofs.glob Pat/BlocksProofs.v.beautified Pat/BlocksProofs.required_vo: Pat/BlocksProofs.v Gen/ScanState.vo Pat/Blocks.vo
 Pat/BlocksProofs.vio: Pat/BlocksProofs.v Gen/ScanState.vio Pat/Blocks.vio
 Pat/BlocksProofs.vos Pat/BlocksProofs.vok Pat/BlocksProofs.required_vos: Pat/BlocksProofs.v Gen/ScanState.vos Pat/Blocks.vos
-Pat/C01Check.vo Pat/C01Check.glob Pat/C01Check.v.beautified Pat/C01Check.required_vo: Pat/C01Check.v Gen/PatConsts.vo Pat/Syntax.vo Pat/Sem.vo Pat/Matcher.vo Pat/Modifiers.vo Pat/MatchList.vo Pat/Base64.vo Pat/Atoms.vo Pat/Pipeline.vo
-Pat/C01Check.vio: Pat/C01Check.v Gen/PatConsts.vio Pat/Syntax.vio Pat/Sem.vio Pat/Matcher.vio Pat/Modifiers.vio Pat/MatchList.vio Pat/Base64.vio Pat/Atoms.vio Pat/Pipeline.vio
-Pat/C01Check.vos Pat/C01Check.vok Pat/C01Check.required_vos: Pat/C01Check.v Gen/PatConsts.vos Pat/Syntax.vos Pat/Sem.vos Pat/Matcher.vos Pat/Modifiers.vos Pat/MatchList.vos Pat/Base64.vos Pat/Atoms.vos Pat/Pipeline.vos
+Pat/C01Check.vo Pat/C01Check.glob Pat/C01Check.v.beautified Pat/C01Check.required_vo: Pat/C01Check.v Gen/PatConsts.vo Pat/Syntax.vo Pat/Sem.vo Pat/Matcher.vo Pat/Modifiers.vo Pat/MatchList.vo Pat/Base64.vo Pat/Atoms.vo Pat/Pipeline.vo Pat/ChainRun.vo Pat/Chain.vo
+Pat/C01Check.vio: Pat/C01Check.v Gen/PatConsts.vio Pat/Syntax.vio Pat/Sem.vio Pat/Matcher.vio Pat/Modifiers.vio Pat/MatchList.vio Pat/Base64.vio Pat/Atoms.vio Pat/Pipeline.vio Pat/ChainRun.vio Pat/Chain.vio
+Pat/C01Check.vos Pat/C01Check.vok Pat/C01Check.required_vos: Pat/C01Check.v Gen/PatConsts.vos Pat/Syntax.vos Pat/Sem.vos Pat/Matcher.vos Pat/Modifiers.vos Pat/MatchList.vos Pat/Base64.vos Pat/Atoms.vos Pat/Pipeline.vos Pat/ChainRun.vos Pat/Chain.vos
 Pat/C01CheckProofs.vo Pat/C01CheckProofs.glob Pat/C01CheckProofs.v.beautified Pat/C01CheckProofs.required_vo: Pat/C01CheckProofs.v Gen/PatConsts.vo Pat/Syntax.vo Pat/Sem.vo Pat/Matcher.vo Pat/MatcherProofs.vo Pat/Modifiers.vo Pat/ModifiersProofs.vo Pat/MatchList.vo Pat/C01Check.vo
 Pat/C01CheckProofs.vio: Pat/C01CheckProofs.v Gen/PatConsts.vio Pat/Syntax.vio Pat/Sem.vio Pat/Matcher.vio Pat/MatcherProofs.vio Pat/Modifiers.vio Pat/ModifiersProofs.vio Pat/MatchList.vio Pat/C01Check.vio
 Pat/C01CheckProofs.vos Pat/C01CheckProofs.vok Pat/C01CheckProofs.required_vos: Pat/C01CheckProofs.v Gen/PatConsts.vos Pat/Syntax.vos Pat/Sem.vos Pat/Matcher.vos Pat/MatcherProofs.vos Pat/Modifiers.vos Pat/ModifiersProofs.vos Pat/MatchList.vos Pat/C01Check.vos
@@ -424,6 +430,9 @@ Pat/Chain.vos Pat/Chain.vok Pat/Chain.required_vos: Pat/Chain.v Gen/PatConsts.vo
 Pat/ChainProofs.vo Pat/ChainProofs.glob Pat/ChainProofs.v.beautified Pat/ChainProofs.required_vo: Pat/ChainProofs.v Gen/PatConsts.vo Pat/Syntax.vo Pat/Sem.vo Pat/Matcher.vo Pat/MatcherProofs.vo Pat/Chain.vo
 Pat/ChainProofs.vio: Pat/ChainProofs.v Gen/PatConsts.vio Pat/Syntax.vio Pat/Sem.vio Pat/Matcher.vio Pat/MatcherProofs.vio Pat/Chain.vio
 Pat/ChainProofs.vos Pat/ChainProofs.vok Pat/ChainProofs.required_vos: Pat/ChainProofs.v Gen/PatConsts.vos Pat/Syntax.vos Pat/Sem.vos Pat/Matcher.vos Pat/MatcherProofs.vos Pat/Chain.vos
+Pat/ChainRun.vo Pat/ChainRun.glob Pat/ChainRun.v.beautified Pat/ChainRun.required_vo: Pat/ChainRun.v Pat/Syntax.vo Pat/Sem.vo Pat/Modifiers.vo Pat/MatchList.vo Pat/Atoms.vo Pat/Pipeline.vo
+Pat/ChainRun.vio: Pat/ChainRun.v Pat/Syntax.vio Pat/Sem.vio Pat/Modifiers.vio Pat/MatchList.vio Pat/Atoms.vio Pat/Pipeline.vio
+Pat/ChainRun.vos Pat/ChainRun.vok Pat/ChainRun.required_vos: Pat/ChainRun.v Pat/Syntax.vos Pat/Sem.vos Pat/Modifiers.vos Pat/MatchList.vos Pat/Atoms.vos Pat/Pipeline.vos
 Pat/MatchList.vo Pat/MatchList.glob Pat/MatchList.v.beautified Pat/MatchList.required_vo: Pat/MatchList.v Gen/PatConsts.vo
 Pat/MatchList.vio: Pat/MatchList.v Gen/PatConsts.vio
 Pat/MatchList.vos Pat/MatchList.vok Pat/MatchList.required_vos: Pat/MatchList.v Gen/PatConsts.vos
